@@ -489,6 +489,18 @@ func build(t *transcript, f fault) *vx.Scenario {
 						}
 					}
 				}
+				if f.Kind == "write-error" {
+					// a command whose bytes never left the client cannot have been completed by the
+					// server: success is only possible if its completion was really delivered
+					for _, x := range o.Results {
+						if x.Tag == 0 || !x.OK {
+							continue
+						}
+						if end, known := compl[x.Tag]; known && o.Delivered < end {
+							return "success-without-completion:" + t.name + ":" + x.Label, fmt.Sprintf("command %s (T%d) reported success after a write error although only %d of the %d bytes up to the end of its tagged completion were delivered", x.Label, x.Tag, o.Delivered, end)
+						}
+					}
+				}
 				return "", ""
 			}
 			for _, x := range o.Results {
